@@ -488,6 +488,9 @@ def store(I, arr, idx, v, node, env):
     if point:
         if len(point) == 2 and all(const_int(p) == 0 for p in point.values()):
             is_mean_point = True
+            sp = arr.meta.get("spec")
+            if sp is not None and sp.layout == "cen":
+                I.event("typestate", node, "entry [0,0] addressed as the mean mode while the array is in centred layout")
             applies = applies and I.ctx == "mean"
         else:
             I.event("unsupported", node, "store at fixed grid index %r" % (point,))
@@ -1205,12 +1208,13 @@ def fft_family(direction):
             # transform of a spatial field -> spectrum in natural layout
             pad = x.meta.get("padded")
             src = pad["of"] if pad else x
-            srcsym = src.sym if isinstance(src, SymArr) else alg.sym(src.name or "field")
+            srcsym = x.val if isinstance(x.val, Expr) else alg.sym(src.name or "field")
             widths = pad["widths"] if pad else tuple((ZERO, ZERO) for _ in x.shape)
             name = "dft0" if I.ctx == "mean" else "dft"
             if direction == "inv":
                 name = "i" + name
             coeff = alg.fn(name, srcsym, widths[-2][0], widths[-1][0], ny, nx)
+            I.event("analysis", node, {"src": src, "pad": pad, "dir": direction, "norm": norm, "scale": scale, "N": (ny, nx)})
             meta = {"spec": Spec("nat", (ny, nx), (ZERO, ZERO)), "analysis_of": {"src": src, "pad": pad, "dir": direction, "norm": norm, "scale": scale, "N": (ny, nx), "where": "%s:%s" % (I.cur_mod.name, node.lineno)}}
             return Arr(x.shape, coeff * scale, "complex128", meta)
         # synthesis from a spectrum
